@@ -90,16 +90,17 @@ func shortSSIDSeed(k keyChoice, ssid func(seed string) []byte) (string, bool) {
 }
 
 type c01Case struct {
-	ShortSSID bool // dealer keys only: search for a key whose session id has a leading zero byte
-	Key       keyChoice
-	Signers   []int
-	Digest    H
-	DigestC   string
-	FBL       int    // -1 absent, 0, or a length in [len(m),32]
-	Steer     string // "", "r-lead0", "s-lead0", "s-high", "s-half", "s-half+1", "r+s-lead0"
-	SteerSd   int
-	Sched     SchedSpec
-	Refusal   bool
+	OtherGlobal bool // the process-global curve is set to edwards25519 although the parameters carry secp256k1
+	ShortSSID   bool // dealer keys only: search for a key whose session id has a leading zero byte
+	Key         keyChoice
+	Signers     []int
+	Digest      H
+	DigestC     string
+	FBL         int    // -1 absent, 0, or a length in [len(m),32]
+	Steer       string // "", "r-lead0", "s-lead0", "s-high", "s-half", "s-half+1", "r+s-lead0"
+	SteerSd     int
+	Sched       SchedSpec
+	Refusal     bool
 }
 
 var c01DigestClasses = []string{"0", "1", "q-1", "pow2", "lt2^248", "lt2^128", "rand", "rand"}
@@ -165,6 +166,7 @@ func genC01(t *rapid.T) c01Case {
 	}
 	c.Sched = genSched(t, len(c.Signers), schedNoDup)
 	c.ShortSSID = c.Key.Src == "dealer" && rapid.IntRange(0, 3).Draw(t, "shortssid") == 0
+	c.OtherGlobal = rapid.IntRange(0, 2).Draw(t, "otherGlobal") == 0
 	return c
 }
 
@@ -250,6 +252,7 @@ func runC01(c c01Case) ev.Outcome {
 		out.Err, out.Sig = fmt.Errorf(f, a...), sig
 		return out
 	}
+	setGlobalCurve(false, c.OtherGlobal)
 	short := false
 	if c.ShortSSID && !c.Refusal && c.Key.Src == "dealer" {
 		c.Key.Seed, short = shortSSIDSeed(c.Key, func(sd string) []byte {
@@ -352,6 +355,9 @@ func runC01(c c01Case) ev.Outcome {
 	}
 	if short {
 		out.Label += " ssid<32B"
+	}
+	if c.OtherGlobal {
+		out.Label += " global-curve=other"
 	}
 	return out
 }
